@@ -13,21 +13,25 @@ EcoB(f) == [minPrice |-> 2, minLimit |-> 1, perByte |-> 2, maxGas |-> 7, num |->
             supply |-> 4]
 MCEco == IF ScenarioSet = "quick" THEN {EcoA(f) : f \in Flags} ELSE {EcoA(f) : f \in Flags} \cup {EcoB(f) : f \in Flags}
 
-F(x, y, z) == [a |-> x, b |-> y, c |-> z]
+\* a, b, c: plain accounts; p: payable smart contract; n: smart-contract address that is not payable
+F(x, y, z) == [a |-> x, b |-> y, c |-> z, p |-> 0, n |-> 0]
+Users == {"a", "b", "c"}
 \* "c" does not exist in most scenarios (balance 0, nonce 0)
-ScenQuick    == {[bal |-> F(9, 4, 0), nonce |-> F(0, 1, 0)],
-                 [bal |-> F(20, 0, 0), nonce |-> F(1, 0, 0)]}
+\* sc = contracts deployed initially ("n" deployed: non-payable metadata; "n" missing: no account at that address)
+ScenQuick    == {[bal |-> F(9, 4, 0), nonce |-> F(0, 1, 0), sc |-> {"p", "n"}],
+                 [bal |-> F(20, 0, 0), nonce |-> F(1, 0, 0), sc |-> {"p"}]}
 ScenThorough == ScenQuick \cup
-                {[bal |-> F(3, 3, 3), nonce |-> F(0, 0, 0)],
-                 [bal |-> F(12, 1, 0), nonce |-> F(2, 0, 1)],
-                 [bal |-> F(0, 0, 30), nonce |-> F(0, 0, 0)],
-                 [bal |-> F(6, 7, 0), nonce |-> F(0, 0, 0)]}
+                {[bal |-> F(3, 3, 3), nonce |-> F(0, 0, 0), sc |-> {}],
+                 [bal |-> F(12, 1, 0), nonce |-> F(2, 0, 1), sc |-> {"n"}],
+                 [bal |-> F(0, 0, 30), nonce |-> F(0, 0, 0), sc |-> {"p", "n"}],
+                 [bal |-> F(6, 7, 0), nonce |-> F(0, 0, 0), sc |-> {"p"}]}
 MCScen == IF ScenarioSet = "quick" THEN ScenQuick ELSE ScenThorough
 
 \* the product of the interesting values, except that the rejected-before-the-balance-checks classes (wrong nonce,
 \* price below the minimum, value above the supply) are represented by one transaction shape each
 Rep(tx) == tx.value = 0 /\ tx.price = 1 /\ tx.gl = 3 /\ tx.dl = 0
-MCTxs == {tx \in [snd : Accts, rcv : Accts, dn : DNonces, value : Values, price : Prices, gl : GasLimits, dl : DataLens] :
+MCTxs == {tx \in [snd : Users, rcv : Accts, dn : DNonces, value : Values, price : Prices, gl : GasLimits, dl : DataLens] :
+            /\ tx.rcv \notin Users => tx.dl = 0        \* a transfer to a contract address that carries data is a contract call
             /\ tx.dn # 0 => Rep(tx)
             /\ tx.price < 1 => Rep([tx EXCEPT !.price = 1])
             /\ tx.value > 40 => Rep([tx EXCEPT !.value = 0])}    \* (with EcoB's supply 4 the value 41 is out of bounds, 4 is the limit)
